@@ -685,6 +685,21 @@ def rand_prog(rng, max_len=12, fmts=None, allow_slow=True):
         elif k == 14:
             ins.append("powi/%d/%d" % (rng.choice([0, 1, 2, 3, 5, 8]), i))
             regs.append(si)
+        elif k == 15 and allow_slow and si.P <= 64 and 3 <= si.E <= 11 and rng.randrange(2):
+            # the transcendental functions and constants, results fed back like any other value
+            c = rng.randrange(6)
+            if c == 0:
+                ins.append("const/%s/%s" % (rng.choice(["pi", "e", "ln2"]), si))
+            elif c == 1:
+                same = [j for j in range(len(regs)) if str(regs[j]) == str(si)]
+                ins.append("pow/%d/%d" % (i, rng.choice(same)))
+            elif c == 2:
+                ins.append("one/%s/%d" % (si, rng.randrange(2)))
+            elif c == 3:
+                ins.append("setsign/%d/%d" % (rng.randrange(2), i))
+            else:
+                ins.append("fn/%s/%d" % (rng.choice(["exp", "log", "sigmoid", "sin", "cos", "tan", "sqr"]), i))
+            regs.append(si)
         else:
             c = rng.randrange(3)
             if c == 0:
@@ -824,6 +839,18 @@ def big_lines(rng, n, maxlen=8, karatsuba=0):
     for k in [0, 1, 63, 64, 65, 127, 128, 129, 300]:
         lines.append("big allones %d" % k)
         lines.append("big onehot %d" % k)
+    # glue: u128 / u64 constructors and accessors, zero in every printing routine, u64 right-hand operators
+    for v in [0, 1, 2 ** 63, 2 ** 64 - 1, 2 ** 64, 2 ** 64 + 1, 2 ** 127, 2 ** 128 - 1] + [rng.getrandbits(rng.choice([10, 64, 65, 128])) for _ in range(40)]:
+        lines.append("big u128 %x" % v)
+    for t in ["0", "0/3"]:
+        lines += ["big bin %s" % t, "big dec %s" % t, "big flags %s" % t, "big msb %s" % t]
+    for _ in range(max(20, n // 100)):
+        a, av = big_tok(rng, maxlen)
+        w = rng.choice([0, 1, 2, 10, 2 ** 63, 2 ** 64 - 1, rng.getrandbits(64)])
+        for op in ("add", "sub", "mul", "div"):
+            if op == "div" and w == 0:
+                continue
+            lines.append("big %s %s %x" % (op, a, w))
     for _ in range(karatsuba):
         la, lb = rng.choice([(64, 64), (65, 65), (65, 1), (1, 65), (63, 66), (128, 129), (130, 64), (200, 257), (70, 300), (129, 129)])
         av = sum(w << (64 * i) for i, w in enumerate(rand_limbs(rng, la)))
